@@ -979,6 +979,7 @@ func genC05(c *Ctx) {
 		c.c05Malformed(s)
 		c.c05Probes(s)
 	}
+	c.c05ProbeQMul()
 }
 
 // trueNoise returns log2 of the largest centred coefficient of T·phase(ct) mod Q_level (debug only).
